@@ -42,9 +42,11 @@ INFO = {
 def plan(tier, seed):
     if tier == 'quick':
         return [{'geos': ['rect', 'g7'], 'points': 600, 'lines': 120}, {'geos': ['rect-refined', 'g5'], 'points': 600, 'lines': 120},
-                {'geos': ['rect-rotated', 'rect-rot90'], 'points': 600, 'lines': 120}, {'geos': ['g7-refined', 'rect-rot90'], 'points': 600, 'lines': 120}]
-    names = ['rect', 'rect-refined', 'rect-rotated', 'rect-rot90', 'g1', 'g3', 'g5', 'g7', 'g7-refined']
-    return [{'geos': [names[i % len(names)], names[(i + 3) % len(names)]], 'points': 3000, 'lines': 450} for i in range(16)]
+                {'geos': ['rect-rotated', 'rect-rot90'], 'points': 600, 'lines': 120}, {'geos': ['g7-refined', 'rect-rot90'], 'points': 600, 'lines': 120},
+                {'geos': ['rect+feetfile', 'rect-refined+feetfile', 'rect-rotated+file'], 'points': 600, 'lines': 120}]
+    names = ['rect', 'rect-refined', 'rect-rotated', 'rect-rot90', 'g1', 'g3', 'g5', 'g7', 'g7-refined', 'rect+feetfile', 'rect-refined+feetfile', 'rect-rotated+feetfile',
+             'g7+feetfile', 'rect-refined+file']
+    return [{'geos': [names[i % len(names)], names[(i + 3) % len(names)]], 'points': 3000, 'lines': 450} for i in range(20)]
 
 
 # -- geometry snapshot for the oracle -------------------------------------------------------------------
@@ -99,10 +101,13 @@ def make_geo(ctx, kind):
     rng = ctx.rng
     mg = R.mulgrids
     desc = {'kind': kind}
+    via = None
+    if kind.endswith('+feetfile') or kind.endswith('+file'):
+        kind, via = kind.rsplit('+', 1)
     if kind.startswith('rect'):
         geo, d = geos.rectangular(rng, nx=rng.randint(2, 7), ny=rng.randint(2, 6), nz=rng.randint(2, 5), convention=0)
         desc.update(d)
-        desc['kind'] = kind
+        desc['kind'] = kind + ('+' + via if via else '')
         if geo.num_layers > 2 and rng.random() < 0.7:
             desc['surfaces'] = geos.set_surfaces(geo, rng, 'mixed', frac=0.5)
         if kind == 'rect-refined':
@@ -140,6 +145,23 @@ def make_geo(ctx, kind):
             geo.refine(cols)
             cols = rng.sample([c for c in geo.columnlist if c.num_nodes in (3, 4)], 6)
             geo.refine(cols)
+    if via is not None:
+        # the geometry as a user gets it from a file, in metres or in FEET, with the column centres written out
+        # explicitly (centre_specified): what is searched is then what the reader built
+        import os
+        feet = via == 'feetfile'
+        for col in geo.columnlist:
+            col.centre_specified = 1
+        if feet:
+            geo.unit_type = 'FEET '
+        fn = os.path.join(ctx.tmp, 'c12_geo.dat')
+        geo.write(fn)
+        geo = mg.mulgrid(fn)
+        os.remove(fn)
+        desc['through_file'] = 'feet' if feet else 'metres'
+        if kind.startswith('g3'):
+            geo.identify_neighbours()
+            geos.refresh(geo)
     return geo, desc
 
 
@@ -327,10 +349,22 @@ def check_point_3d(ctx, geo, snap, p, exp_col, case):
                 where = 'in-block'
         c2 = dict(case, point=[float(p[0]), float(p[1]), float(z)], where=where)
         pos = np.array([p[0], p[1], z])
+        # every third query with a block map (the names a model built from this geometry gave its blocks): the answer is
+        # then the mapped name of the same block
+        bm = None
+        if int(abs(z) * 1000) % 3 == 0:
+            bm = dict((n, 'Z' + n[1:]) for i, n in enumerate(geo.block_name_list) if i % 2 == 0)
+            ctx.count('points_3d_with_block_map')
         with ctx.guard(c2, where='block_name_containing_point') as g:
-            got = geo.block_name_containing_point(pos, qtree=qt)
+            got = geo.block_name_containing_point(pos, qtree=qt) if bm is None else geo.block_name_containing_point(pos, qtree=qt, blockmap=bm)
         if g.raised is not None:
             continue
+        if bm is not None:
+            want = None if exp is None else bm.get(exp, exp)
+            if got != want:
+                ctx.violation('point3d:block-map:%s' % where, '3-D point %r (%s) with a block map: %r reported, the containing block %r is mapped to %r' % (list(pos), where, got, exp, want), c2)
+                return
+            got = exp
         ctx.evaluated()
         ctx.count('points_3d')
         ctx.see('point_3d_situation', where)
@@ -470,6 +504,7 @@ def run_shard(ctx, spec):
     for kind in spec['geos']:
         with ctx.guard({'kind': kind}, where='make-geometry') as g:
             geo, desc = make_geo(ctx, kind)
+        ctx.see('geometry_from', desc.get('through_file', 'memory'))
         if g.raised is not None:
             continue
         n, m = spec['points'] // 3, spec['lines'] // 3
